@@ -123,4 +123,51 @@ theorem walk_length : ∀ (ds : List K) (lut : List (K × K)) (e : K × K), lut.
       simp only [walk, hp, List.length_cons]
       rw [ih (x :: xs) e (by rw [← hp]; exact hne.2) (fun d' hd' => hd d' (List.mem_cons_of_mem _ hd'))]
 
+/-- `finish` never shortens -/
+theorem finish_length (r out : List K) (h : finish r = some out) : r.length ≤ out.length ∧ (r.getLast? ≠ some 1 → out.length = r.length + 1) := by
+  unfold finish at h
+  cases hl : r.getLast? with
+  | none => rw [hl] at h; simp at h
+  | some l =>
+    rw [hl] at h
+    simp only at h
+    split_ifs at h with h1
+    · simp only [Option.some.injEq] at h; subst h
+      exact ⟨le_refl _, fun hne => absurd (by rw [h1]) hne⟩
+    · simp only [Option.some.injEq] at h; subst h
+      exact ⟨by simp, fun _ => by simp⟩
+
+/-- **number of edges of a flattened cubic** (`CubicBezier.flatten` = lines through the points at `regularSampleTValue(length / d)`): with
+    a lookup table whose last entry reaches every target arc length, the chain has at least one edge per target but one — and one per
+    target when the walk does not end at parameter 1 by itself -/
+theorem cubic_edge_count (evalAt : K → Pt K) (lut : List (K × K)) (targets : List K) (e : K × K) (out : List K)
+    (hl : lut.getLast? = some e) (hd : ∀ d ∈ targets, d ≤ e.2) (h : regular lut targets = some out) :
+    targets.length - 1 ≤ (joinLines (out.map evalAt)).length ∧
+    ((walk lut targets).getLast? ≠ some 1 → (joinLines (out.map evalAt)).length = targets.length) := by
+  have hw := walk_length targets lut e hl hd
+  obtain ⟨h1, h2⟩ := finish_length (walk lut targets) out h
+  rw [joinLines_length, List.length_map]
+  constructor
+  · omega
+  · intro hne; rw [h2 hne, hw]; omega
+
+/-- the property's count: with at least `L/d` targets (the loop `desiredLength += d` while `desiredLength < L`) and `L > 2d`, more than
+    `L/(2d)` edges -/
+theorem cubic_edge_count_bound (evalAt : K → Pt K) (lut : List (K × K)) (targets : List K) (e : K × K) (out : List K) (L d : K)
+    (hl : lut.getLast? = some e) (hd : ∀ x ∈ targets, x ≤ e.2) (h : regular lut targets = some out)
+    (hd0 : 0 < d) (hn : L / d ≤ (targets.length : K)) (hL : 2 * d < L) :
+    L / (2 * d) < ((joinLines (out.map evalAt)).length : K) := by
+  have h1 := (cubic_edge_count evalAt lut targets e out hl hd h).1
+  have h2 : (2 : K) < L / d := by rw [lt_div_iff₀ hd0]; linarith
+  have hge : (targets.length : K) - 1 ≤ ((joinLines (out.map evalAt)).length : K) := by
+    have : ((targets.length - 1 : ℕ) : K) ≤ ((joinLines (out.map evalAt)).length : K) := by exact_mod_cast h1
+    have h3 : (targets.length : K) - 1 ≤ ((targets.length - 1 : ℕ) : K) := by
+      rcases Nat.eq_zero_or_pos targets.length with h0 | h0
+      · rw [h0]; simp
+      · rw [Nat.cast_sub h0]; simp
+    linarith
+  have e2 : L / (2 * d) = L / d / 2 := by field_simp
+  rw [e2]
+  linarith
+
 end C17
